@@ -319,3 +319,86 @@ func CrashThenShrink(rng *rand.Rand, k int, kind string) *History {
 	h.Ops = append(h.Ops, gen(short, nil, false))
 	return h
 }
+
+// CorruptEveryOutput enumerates prior states systematically: for a layout world, every
+// previously generated file k is damaged in every way (deleted, garbage from line 4,
+// truncated behind the header at several offsets, truncated inside the header, junk
+// appended), in both file-age regimes, and one regeneration must follow. nOutputs is an upper
+// bound of outputs; indices beyond the actual number wrap around.
+func CorruptEveryOutput(rng *rand.Rand, lopts LayoutOpts, nOutputs int) []*History {
+	spec := DrawLayout(rng, 1+rng.IntN(3), lopts)
+	for hasPathConflict(spec) {
+		spec = DrawLayout(rng, 1+rng.IntN(3), lopts)
+	}
+	w := spec.World("corrupt-every-output")
+	bumped := spec.Bump()
+	var hs []*History
+	kinds := []struct {
+		how string
+		m   int
+	}{{"delete", 0}, {"garbage", 0}, {"trunc-body", 0}, {"trunc-body", 1}, {"trunc-body", 9}, {"trunc-body", 60}, {"trunc-header", 0}, {"trunc-header", 30}, {"trunc-header", 70}, {"append-junk", 0}}
+	for k := 0; k < nOutputs; k++ {
+		for _, kd := range kinds {
+			for _, age := range []string{"", "fresh"} {
+				for _, edit := range []bool{false, true} {
+					if edit && age == "fresh" {
+						continue
+					}
+					cur := spec
+					h := &History{World: w, Loc: rng.IntN(len(locNames))}
+					mk := func(sp *LSpec, setup bool) Op {
+						g := &GenSpec{Plan: planIdentity(), Spec: sp, Expect: "ok", Canon: w.Patterns, Globals: w.Globals, FileAge: age, Setup: setup}
+						if g.Globals == nil {
+							g.Globals = []string{}
+						}
+						return genOp(g)
+					}
+					h.Ops = append(h.Ops, mk(cur, true))
+					if edit {
+						h.Ops = append(h.Ops, editOps("EditTypes", withDefaultGoMod(w.Module, w.Files), withDefaultGoMod(w.Module, bumped.Render()))...)
+						cur = bumped
+					}
+					h.Ops = append(h.Ops, Op{Kind: "corrupt", Label: "Corrupt", Content: kd.how, N: k, Path: fmt.Sprint(kd.m)})
+					h.Ops = append(h.Ops, mk(cur, false))
+					hs = append(hs, h)
+				}
+			}
+		}
+	}
+	return hs
+}
+
+// NameThenDrop: an earlier run wrote an output with an explicit package name, the name is
+// then removed from the settings; the stale file (same path, old clause) must not decide the
+// new package clause.
+func NameThenDrop(rng *rand.Rand) *History {
+	var spec *LSpec
+	for {
+		spec = DrawLayout(rng, 1+rng.IntN(3), LayoutOpts{UserPkgs: rng.IntN(2) == 0})
+		ok := false
+		for i := range spec.Convs {
+			if spec.Convs[i].Kind == "interface" && strings.Contains(spec.Convs[i].OutPkg, ":") {
+				ok = true
+			}
+		}
+		if ok && !hasPathConflict(spec) {
+			break
+		}
+	}
+	w := spec.World("name-then-drop")
+	dropped := spec.Clone()
+	for i := range dropped.Convs {
+		c := &dropped.Convs[i]
+		if c.Kind == "interface" && strings.Contains(c.OutPkg, ":") {
+			c.OutPkg = strings.SplitN(c.OutPkg, ":", 2)[0] // keep the path, drop the name
+		}
+	}
+	g := func(sp *LSpec, setup bool) Op {
+		return genOp(&GenSpec{Plan: planIdentity(), Spec: sp, Expect: "ok", Canon: w.Patterns, Globals: []string{}, Setup: setup})
+	}
+	h := &History{World: w, Loc: rng.IntN(len(locNames))}
+	h.Ops = append(h.Ops, g(spec, true))
+	h.Ops = append(h.Ops, editOps("DropPackageName", withDefaultGoMod(w.Module, w.Files), withDefaultGoMod(w.Module, dropped.Render()))...)
+	h.Ops = append(h.Ops, g(dropped, false))
+	return h
+}
